@@ -150,7 +150,7 @@ func ApplyEdits(root *json.Object, p *presence.Presence, edits []Edit) {
 			}
 		case "pset":
 			p.Set(e.Key, e.S)
-		case "xtxt", "xelm", "xdel", "xmrg", "xsty", "xuns", "xspl":
+		case "xtxt", "xelm", "xdel", "xmrg", "xsty", "xuns", "xspl", "xinl", "xdin":
 			if t := root.GetTree("x"); t != nil {
 				applyTreeEdit(t, e)
 			}
@@ -234,6 +234,35 @@ func applyTreeEdit(t *json.Tree, e Edit) {
 	case "xtxt":
 		if k, ok := pickIdx(under2, e.I); ok {
 			t.Edit(k, k, &json.TreeNode{Type: "text", Value: e.S}, 0)
+		}
+	case "xinl":
+		// an inline element inside a paragraph
+		if k, ok := pickIdx(under2, e.I); ok {
+			t.Edit(k, k, &json.TreeNode{Type: "b", Children: []json.TreeNode{{Type: "text", Value: e.S}}}, 0)
+		}
+	case "xdin":
+		// delete a whole inline element: from just before its opening tag to just after its closing tag
+		var cands [][2]int
+		for k := 0; k < n; k++ {
+			if depths[k] == 2 && isOpen(toks[k+1]) {
+				// find the matching close
+				d := 0
+				for j := k + 1; j < len(toks); j++ {
+					if isOpen(toks[j]) {
+						d++
+					} else if isClose(toks[j]) {
+						d--
+						if d == 0 {
+							cands = append(cands, [2]int{k, j})
+							break
+						}
+					}
+				}
+			}
+		}
+		if len(cands) > 0 {
+			c := cands[mod(e.I, len(cands))]
+			t.Edit(c[0], c[1], nil, 0)
 		}
 	case "xelm":
 		if k, ok := pickIdx(under1, e.I); ok {
@@ -956,3 +985,6 @@ func SetupEdits(root *json.Object, what string) { setupEdits(root, what) }
 func SafeUpdate(d *document.Document, edits []Edit, fail string) (error, bool) {
 	return safeUpdate(d, edits, fail)
 }
+
+// TreeTokens is the exported form of treeTokens.
+func TreeTokens(xml string) []string { return treeTokens(xml) }
